@@ -4,6 +4,8 @@ import json
 import build
 import core
 import eng_opts
+import eng_win
+import eng_cxx
 
 
 def scen_check(module, level, rule, min_obs_quick=None, min_obs_thorough=None, config="asan",
@@ -185,6 +187,8 @@ CHECKS = {
         "life-cycle state machine asserting only state-determined results; non-trivial = more than 3 ops checked",
         {"ops_checked": 50000, "state_op_pairs": 45, "einval_checks": 5000, "epipe_checks": 3000, "cached_status_checks": 500},
         assumptions=KERNEL_TRUST),
+    "C19": {"run": eng_cxx.run, "level": "exploration", "module": "eng_cxx"},
+    "C18": {"run": eng_win.run, "level": "exploration", "module": "eng_win"},
     "C13": {"run": eng_opts.run, "level": "exploration", "module": "eng_opts"},
 }
 
@@ -279,6 +283,18 @@ MANIFEST_TEXT = {
             "(state, operation) pairs.",
             "data- and timing-dependent results are only required to lie in the operation's documented result set; the fork-child state is exercised by C15",
             "DESIGN.md 3/C14"),
+    "C19": ("cxx", "runtime monitor: reproc++ compiled from the tree against a recording fake C API; field-by-field and result-by-result comparison under ASan/UBSan",
+            "reproc.cpp and the headers are linked against fake reproc_* functions that record everything they receive and return "
+            "scripted values, so every field, container conversion, constant and return path of the wrapper is observed directly.",
+            "the fake C API is the trusted base; behaviour of the wrapper against the real library is exercised by C16's C++ pass",
+            "DESIGN.md 3/C19"),
+    "C18": ("win", "runtime monitor: Windows sources executed on Linux against Win32 stubs under ASan/UBSan; independent command-line and env-block decoders",
+            "process.windows.c, utf.windows.c and handle.windows.c from the tree are compiled with -D_WIN32 against a stub windows.h and "
+            "really executed; the command line and environment block handed to CreateProcessW are captured and decoded by an "
+            "independent implementation of the documented parsing rules; ASan checks every buffer (sizes are computed by the code "
+            "under test), including the block walk that needs the final NUL.",
+            "the stubs and the decoder are part of the trusted base; only the string/buffer code is run, not the Windows process back-end",
+            "DESIGN.md 3/C18"),
     "C13": ("opts", "runtime monitor: independent rule table vs reproc_start's verdict + libc trace of the redirect set-up, in-process enumeration",
             "All 8.2 million redirect assignments (thorough) are run through the real reproc_start with fork made to fail; the oracle is a "
             "transcription of the documented rules. Rejections must be EINVAL with no descriptor- or process-creating call before them, "
@@ -287,8 +303,10 @@ MANIFEST_TEXT = {
             "DESIGN.md 3/C13"),
 }
 
-ENGINE_PATHS = {"seq": "eng_seq.py", "opts": "eng_opts.py", "life": "eng_life.py", "poll": "eng_poll.py", "io": "eng_io.py", "fault": "eng_fault.py", "ident": "eng_ident.py"}
+ENGINE_PATHS = {"cxx": "eng_cxx.py", "win": "eng_win.py", "seq": "eng_seq.py", "opts": "eng_opts.py", "life": "eng_life.py", "poll": "eng_poll.py", "io": "eng_io.py", "fault": "eng_fault.py", "ident": "eng_ident.py"}
 ENGINE_KINDS = {
+    "cxx": "in-process C++ harness src/cxx.cpp: fake C API + reproc.cpp from the tree",
+    "win": "Windows sources compiled with -D_WIN32 against stubs/windows.h; in-process enumerator src/win.c",
     "seq": "scenario runner on a virtual clock; random API sequences; builds asan (asserts on) and asan-nd",
     "opts": "in-process enumerator (src/opts.c) linked against the interposed library; fork fails with a reserved errno",
     "ident": "helper child reports its own fd table / argv / env / cwd over a control socket found via its executable's directory",
